@@ -541,7 +541,7 @@ func classifyGb(c GbCase) (bool, []string) {
 		labels = append(labels, "rtp:seq-disorder")
 	}
 	if c.Hdr != nil {
-		for _, l := range c.Hdr.labels()[1:] {
+		for _, l := range c.Hdr.labels()[2:] {
 			labels = append(labels, l)
 		}
 		hostile = true
